@@ -34,5 +34,7 @@ def run(rep):
     mr.rule_token_table(rep, "C02.kinds", "C02.col")
     mr.rule_docstring_fsm(rep, "C02.fsm")
     mr.rule_match_result(rep, "C02.result")
+    # "its sequence of line tokens" starts at the scanner: one token per line feed terminated line, in order
+    lr.rule_scanner(rep, "C02.line", "C02.scan")
     # no hidden state: what the property promises for one use must hold for every later use as well
     ms.rule_stateless(rep, "C02")
